@@ -2036,3 +2036,10 @@ E('C12', 'local-raise-caught', S2, """        if tasks:
         except LookupError:
             pass
 """, note="an explicit raise absorbed by the local handler does not escape")
+
+# ----------------------------------------------------------------------------- R15.8 (defect F15)
+VM('C15', 'f15-reverted', [(BLK, "        key = (type(const), const)\n", "        key = const\n")], 'R15.8',
+   note="pre-fix tree: 1 / True / 1.0 share one Const")
+V('C15', 'const-key-hash', BLK, "        key = (type(const), const)\n", "        key = (type(const), hash(const))\n", 'R15.8',
+  note="seed C15-10: equal hashes (-1, -2) share one Const")
+E('C15', 'const-key-class', BLK, "        key = (type(const), const)\n", "        key = (const.__class__, const)\n")
